@@ -725,6 +725,10 @@ func unescapeBackTickSpecialStr(l *syntax.Lexer, srcLiteral []rune) []rune {
 			} else {
 				goto UNDONE_end
 			}
+		case syntax.RuneEOF, syntax.RuneCR, syntax.RuneLF:
+			// the text ends, or the line ends, inside the back-tick text: stop BEFORE that character, so that
+			// parseString reports the unterminated string at a cursor inside the text, and records the line break
+			goto UNDONE_end
 		}
 
 		cch := l.Next()
